@@ -14,7 +14,8 @@
 EXTENDS Naturals, FiniteSets, Sequences, TLC
 CONSTANTS N, M, Kind,              \* Kind: "p2sh" or "p2wsh"
           CheckRedeemHash,         \* PSBTOut.validate ties a bare redeem script to the scriptPubKey
-          CheckDistinctCosigners   \* change detection requires one key per declared cosigner
+          CheckDistinctCosigners   \* "all": change detection requires one key per declared cosigner; "quorum": only >= M distinct
+                                   \* cosigners (a plausible weakening, must be refuted); "none": the unrepaired code
 Cos == 1..N
 NoScript == [m |-> 0, keys |-> {}]
 HonestKeys == {<<c, "chg">> : c \in Cos}
@@ -30,6 +31,8 @@ Init == outs = <<Spend, HonestChange>> /\ tampers = 0 /\ inputsOK = TRUE
 AtkScript == [m |-> M, keys |-> {<<0, "atk">>} \cup {<<c, "chg">> : c \in 2..N}]
 OneCosScript == [m |-> M, keys |-> {<<1, "chg">>, <<1, "alt">>} \cup (IF N > 2 THEN {<<1, "alt2">>} ELSE {})]
 OneCosNamed == {[key |-> k, xfp |-> 1, path |-> k[2]] : k \in OneCosScript.keys}
+TwoFromOneScript == [m |-> M, keys |-> {<<1, "chg">>, <<1, "alt">>} \cup {<<c, "chg">> : c \in 2..(N - 1)}]     \* cosigner 1 twice, cosigner N not at all
+TwoFromOneNamed == {[key |-> k, xfp |-> k[1], path |-> k[2]] : k \in TwoFromOneScript.keys}
 Set(k, o) == outs' = [outs EXCEPT ![k] = o] /\ tampers' = tampers + 1 /\ UNCHANGED inputsOK
 \* the catalogue (applied to output 2, the change output, unless stated)
 SwapSpk == Set(2, [outs[2] EXCEPT !.spk = AtkScript])                                              \* scriptPubKey swapped, metadata kept
@@ -37,13 +40,14 @@ ForeignScript == Set(2, [outs[2] EXCEPT !.attached = AtkScript, !.spk = AtkScrip
 ForeignScriptNamed == Set(2, [outs[2] EXCEPT !.attached = AtkScript, !.spk = AtkScript,
                                             !.named = (HonestNamed \ {[key |-> <<1, "chg">>, xfp |-> 1, path |-> "chg"]}) \cup {[key |-> <<0, "atk">>, xfp |-> 1, path |-> "chg"]}])
 OneCosigner == Set(2, [outs[2] EXCEPT !.attached = OneCosScript, !.spk = OneCosScript, !.named = OneCosNamed]) \* every change key from cosigner 1
+TwoFromOne == N > 2 /\ Set(2, [outs[2] EXCEPT !.attached = TwoFromOneScript, !.spk = TwoFromOneScript, !.named = TwoFromOneNamed])
 WrongPath == Set(2, [outs[2] EXCEPT !.named = (HonestNamed \ {[key |-> <<1, "chg">>, xfp |-> 1, path |-> "chg"]}) \cup {[key |-> <<1, "chg">>, xfp |-> 1, path |-> "alt"]}])
 ForeignXfp == Set(2, [outs[2] EXCEPT !.named = (HonestNamed \ {[key |-> <<1, "chg">>, xfp |-> 1, path |-> "chg"]}) \cup {[key |-> <<1, "chg">>, xfp |-> 0, path |-> "chg"]}])
 ChangeQuorum == M > 1 /\ Set(2, [outs[2] EXCEPT !.attached = [HonestScript EXCEPT !.m = M - 1], !.spk = [HonestScript EXCEPT !.m = M - 1]])
 SecondChange == outs' = Append(outs, HonestChange) /\ tampers' = tampers + 1 /\ UNCHANGED inputsOK
 MarkSpendAsChange == Set(1, [outs[1] EXCEPT !.attached = HonestScript, !.named = HonestNamed])            \* spend output dressed up with change metadata
 TamperInput == inputsOK' = FALSE /\ tampers' = tampers + 1 /\ UNCHANGED outs                            \* UTXO / script / derivation of an input no longer matches
-Next == tampers < 2 /\ (SwapSpk \/ ForeignScript \/ ForeignScriptNamed \/ OneCosigner \/ WrongPath \/ ForeignXfp \/ ChangeQuorum \/ SecondChange \/ MarkSpendAsChange \/ TamperInput)
+Next == tampers < 2 /\ (SwapSpk \/ ForeignScript \/ ForeignScriptNamed \/ OneCosigner \/ TwoFromOne \/ WrongPath \/ ForeignXfp \/ ChangeQuorum \/ SecondChange \/ MarkSpendAsChange \/ TamperInput)
 Spec == Init /\ [][Next]_vars
 
 \* ---- PSBTOut.validate + change detection, as the code proceeds -----------------------------------
@@ -56,7 +60,8 @@ OutcomeOut(o) ==        \* "spend" / "change" / "reject"
   ELSE IF o.attached = NoScript THEN "reject"
   ELSE IF o.attached.m # M \/ Cardinality(o.attached.keys) # N \/ Cardinality(o.named) # N THEN "reject"
   ELSE IF \E np \in o.named : np.xfp \notin Cos \/ ~Derives(np) THEN "reject"
-  ELSE IF CheckDistinctCosigners /\ Cardinality({np.xfp : np \in o.named}) # N THEN "reject"
+  ELSE IF CheckDistinctCosigners = "all" /\ Cardinality({np.xfp : np \in o.named}) # N THEN "reject"
+  ELSE IF CheckDistinctCosigners = "quorum" /\ Cardinality({np.xfp : np \in o.named}) < M THEN "reject"
   ELSE "change"
 Describe == IF ~inputsOK \/ \E k \in 1..Len(outs) : OutcomeOut(outs[k]) = "reject" THEN "reject"
             ELSE IF Cardinality({k \in 1..Len(outs) : OutcomeOut(outs[k]) = "change"}) > 1 THEN "reject"
